@@ -8,7 +8,7 @@
 
   Side conditions: `Refine.FuncOk node` (one decidable check, Mwp/Lemmas/FuncRefineCore.lean):
   the node is a function definition whose body is a block of statements of the supported fragment,
-  `namesOkA` / `castOkA` hold for them, the loop guards of the reading are fresh (`guardsFresh`), and
+  `namesOkA` holds for them, the loop guards of the reading are fresh (`guardsFresh`), and
   every variable of the reading is among the function's recorded variables (excludes only the
   reserved names `true` / `false` used as variables).  Success of `func` is a hypothesis (the
   fixpoint loops of the model are fuelled).
@@ -44,7 +44,7 @@ theorem infinite_iff_no_derivation_any_universe (node : Node) (stop : Bool) (r :
 /-- the verdict does not depend on the mode -/
 theorem verdict_mode_independent (node : Node) (hok : FuncOk node = true) (r1 r2 : FuncRes)
     (h1 : func node true = .ok r1) (h2 : func node false = .ok r2) : r1.infinite = r2.infinite := by
-  obtain ⟨_, _, cs, _, _, _, _, _, _, _, _, hd, _⟩ := FuncOk.unpack hok
+  obtain ⟨_, _, cs, _, _, _, _, _, _, _, hd, _⟩ := FuncOk.unpack hok
   obtain ⟨vs, hvs, hnd, _, _, _, hiff1, _⟩ := func_sem node true r1 hok h1 _ hd
   have i1 := hiff1 vs hnd (fun v hv => hv)
   have i2 := infinite_iff_no_derivation_any_universe node false r2 hok h2 _ hd vs hvs vs hnd (fun v hv => hv)
@@ -65,7 +65,7 @@ theorem finite_reports_whole_body (node : Node) (stop : Bool) (r : FuncRes)
 theorem finite_has_valid_choice (node : Node) (stop : Bool) (r : FuncRes)
     (hok : FuncOk node = true) (h : func node stop = .ok r) (hf : r.infinite = false) :
     ∃ ch f, r.choices = some ch ∧ Choices.first ch = .ok (some f) ∧ Choices.isValid ch f = true := by
-  obtain ⟨_, _, cs, _, _, _, _, _, _, _, _, hd, _⟩ := FuncOk.unpack hok
+  obtain ⟨_, _, cs, _, _, _, _, _, _, _, hd, _⟩ := FuncOk.unpack hok
   obtain ⟨_, _, _, _, _, _, _, hfin⟩ := func_sem node stop r hok h _ hd
   obtain ⟨_, ch, _, hc, _, _, _, _, ⟨f, h1, _, _, h2⟩, _⟩ := hfin hf
   exact ⟨ch, f, hc, h1, h2⟩
@@ -84,10 +84,10 @@ theorem first_choice_is_a_derivation (node : Node) (stop : Bool) (r : FuncRes)
 
 /-- the side condition `FuncOk` follows from checks on the syntax tree alone -/
 theorem funcOk_from_syntax (d : Node) (l : List Node) (cs : List Cmd) (hdl : desugarL l = some cs)
-    (hn : namesOkAL l = true) (hc : castOkAL l = true) (hp : guardsPlainL l = true)
+    (hn : namesOkAL l = true) (hp : guardsPlainL l = true)
     (hres : ∀ v ∈ varsL cs, v ≠ "" ∧ v ∉ Gen.reserved) :
     FuncOk (.funcDef d (.compound (some l))) = true :=
-  funcOk_of_plain d l cs hdl hn hc hp hres
+  funcOk_of_plain d l cs hdl hn hp hres
 
 /-! ## non-vacuity -/
 
